@@ -222,9 +222,18 @@ let run_hdr (c : case) : string =
     let size = (match rstep r1 RSize with (_, RSz v) -> z_to_dec v | _ -> "?") in
     (vfh_of input, e, size) in
   let rs = List.map one cks in
-  Printf.sprintf "vfh=%s rd=%s size=%s" (String.concat "," (List.map (fun (a,_,_) -> a) rs))
+  (* the frame SPECIFICATION's verdict on the same header (independent of the Reader model) *)
+  let spec_one ck =
+    let desc = [byte_tab.(d land 255); byte_tab.(d lsr 8)] @ (if d land 8 <> 0 then sz else []) @ [byte_tab.(ck)] in
+    (match parse_desc false desc with Some _ -> "1" | None -> "0") in
+  let refacc = String.concat "," (List.map spec_one cks) in
+  (* C19_exact / C19_size characterise the header parser completely, so its results are the
+     specification for this component: a disagreement is a concrete failing header *)
+  Printf.sprintf "ref_acc=%s ref_vfh=%s ref_rd=%s ref_size=%s vfh=%s rd=%s size=%s" refacc
+    (String.concat "," (List.map (fun (a,_,_) -> a) rs))
+    (String.concat "," (List.map (fun (_,b,_) -> b) rs)) (String.concat "," (List.map (fun (_,_,c) -> c) rs)) (String.concat "," (List.map (fun (a,_,_) -> a) rs))
     (String.concat "," (List.map (fun (_,b,_) -> b) rs)) (String.concat "," (List.map (fun (_,_,c) -> c) rs))
-let run_hdrm (c : case) : string = "vfh=" ^ vfh_of (get_bytes c "in")
+let run_hdrm (c : case) : string = let v = vfh_of (get_bytes c "in") in "ref_vfh=" ^ v ^ " vfh=" ^ v
 
 (* ---- pipeline traces (C08) ---- *)
 let run_pipe (c : case) : string =
